@@ -10,7 +10,7 @@ import struct
 ATTR_RO, ATTR_HID, ATTR_SYS, ATTR_VOL, ATTR_DIR, ATTR_ARC = 1, 2, 4, 8, 16, 32
 ATTR_LFN = 0x0F
 
-SFN_ILLEGAL = set(range(0x20)) | set(b'"*+,./:;<=>?[\\]|') | {0x7F}
+SFN_ILLEGAL = set(range(0x20)) | set(b'"*+,./:;<=>?[\\]|')
 LFN_ILLEGAL = set('"*/:<>?\\|') | {chr(c) for c in range(0x20)}
 
 
@@ -721,9 +721,7 @@ def fsck(image, offset=0, cp="ibm437", check_dirs=True):
                     chk = bytes([0xE5 if name11[0] == 0x05 else name11[0]]) + name11[1:]
                     base, ext = chk[:8], chk[8:]
                     bad = chk[0] == 0x20 or any(b in SFN_ILLEGAL - {0x2E} or b == 0x2E for b in chk)
-                    # embedded spaces: only trailing padding allowed
-                    if base.rstrip(b" ").find(b" ") >= 0 or ext.rstrip(b" ").find(b" ") >= 0:
-                        bad = True
+                    # (embedded spaces are legal in short names; only DIR_Name[0] may not be a space)
                     try:
                         txt = chk.decode(cp)
                         if txt != txt.upper():
